@@ -2,9 +2,11 @@ package main
 
 func init() {
 	register(&propDef{ID: "C17", Title: "GC removes only dead containers' state, and eventually all of it",
-		Explanation: "Decides: (R1) every remover call in package gc (IP reservation file, state/port file incl. the port-clean callback, veth link) is reachable only through the true edge of shouldCleanup for the same directory entry / link, and os.Remove appears only inside the removers; (R2) shouldCleanup returns true only through one of the classifier edges grpc NotFound / apierrors.IsNotFound / ContainerNotFoundError / status exited|dead / SANDBOX_NOTREADY, never from another error edge of an inspect or pod lookup, never for a sandbox with a waiting or running container, and never without asking the runtime; (R3) the docker wrapper asks the daemon on every call (no local short-circuit), classifies not-found only after the context error was excluded and builds ContainerNotFoundError only on that edge; the containerd wrapper returns the runtime's error as is. (R5) the port-clean callback removes a container's port file only after CleanPortMapping succeeded; (R4) the three collectors leave their scan loop only when it is exhausted (no return or break inside: an unreadable directory or failing entry does not starve the rest), and the container id cleanupIP asks about is the reservation file's content up to the first \\n. Does not decide 'everything is removed within a bounded number of rounds' beyond these two and the every-call-asks condition. (R6) NewFlannelGC and the helpers it calls perform no file-system query and store lists derived from the flags: which configured directories exist is decided anew in every round. (R7) every unary client interceptor installed in pkg/api/docker returns nil or exactly what the invoker returned; with none installed the dial options are listed as examined.",
+		Explanation: "Decides: (R1) every remover call in package gc (IP reservation file, state/port file incl. the port-clean callback, veth link) is reachable only through the true edge of shouldCleanup for the same directory entry / link, and os.Remove appears only inside the removers; (R2) shouldCleanup returns true only through one of the classifier edges grpc NotFound / apierrors.IsNotFound / ContainerNotFoundError / status exited|dead / SANDBOX_NOTREADY, never from another error edge of an inspect or pod lookup, never for a sandbox with a waiting or running container, and never without asking the runtime; (R3) the docker wrapper asks the daemon on every call (no local short-circuit), classifies not-found only after the context error was excluded and builds ContainerNotFoundError only on that edge; the containerd wrapper returns the runtime's error as is. (R5) the port-clean callback removes a container's port file only after CleanPortMapping succeeded; (R4) the three collectors leave their scan loop only when it is exhausted (no return or break inside: an unreadable directory or failing entry does not starve the rest), and the container id cleanupIP asks about is the reservation file's content up to the first \\n. Does not decide 'everything is removed within a bounded number of rounds' beyond these two and the every-call-asks condition. (R6) NewFlannelGC and the helpers it calls perform no file-system query and store lists derived from the flags: which configured directories exist is decided anew in every round. (R7) every unary client interceptor installed in pkg/api/docker returns nil or exactly what the invoker returned; with none installed the dial options are listed as examined. (R8) no return of removeLeakyStateFile bypasses os.Remove.",
 		Assumptions: []string{"CFG paths; classifier edges identified by callee / constant / asserted type"},
 		Run: func(c *Ctx) {
+			c.Rule("C17.R8", "a dead container's state file is removed whether or not the port clean-up succeeded", 1)
+			ruleStateFileRemovedRegardless(c, "C17.R8")
 			c.Rule("C17.R1", "deletion only behind the fail-safe decision; runtime asked on every call", 8)
 			ruleGC(c, "C17.R1")
 			c.Rule("C17.R7", "errors of the CRI client reach the classifier with their gRPC status", 1)
